@@ -69,8 +69,13 @@ Http::One::TeChunkedParser::parse(const SBuf &aBuf)
         if (parsingStage_ == Http1::HTTP_PARSE_CHUNK && !parseChunkBody(tok))
             return false;
 
-        if (parsingStage_ == Http1::HTTP_PARSE_MIME && !grabMimeBlock("Trailers", 64*1024 /* 64KB max */))
+        if (parsingStage_ == Http1::HTTP_PARSE_MIME && !grabMimeBlock("Trailers", 64*1024 /* 64KB max */)) {
+            // grabMimeBlock() stops parsing for good when it rejects the block;
+            // without this, our callers would wait for more data forever
+            if (parseStatusCode == Http::scInvalidHeader)
+                throw TexcHere("malformed chunked trailers");
             return false;
+        }
 
         // loop for as many chunks as we can
     } while (parsingStage_ == Http1::HTTP_PARSE_CHUNK_SZ && parseChunkSize(tok));
